@@ -24,7 +24,7 @@ BLOCS = ["W", "C", "X"]
 def gen_params(rng, gname):
     nb = rng.choice([1, 2, 2, 3])
     if gname in ("slate_PL", "slate_BT", "AlternatingCrossover", "slate_BT_MCMC", "CambridgeSampler"):
-        nb = 2 if gname != "slate_PL" else rng.choice([1, 2, 2])
+        nb = 2 if gname != "slate_PL" else rng.choice([1, 2, 2, 3, 3])
     blocs = BLOCS[:nb]
     sizes = [rng.randint(1, 3) for _ in blocs]
     if gname == "AlternatingCrossover" and rng.random() < 0.7:
@@ -45,6 +45,20 @@ def gen_params(rng, gname):
     coh = {b: dict(zip([b] + [x for x in blocs if x != b], rng.choice(COH[nb]))) for b in blocs}
     coh = {b: {b2: coh[b][b2] for b2 in blocs} for b in blocs}
     props = dict(zip(blocs, rng.choice(PROPS[nb])))
+    if nb >= 2 and rng.random() < 0.5:
+        # the three bloc dictionaries are independent arguments: the same keys may come in different orders
+        # (the generators take the bloc order from bloc_voter_prop)
+        def shuffled(d):
+            ks = list(d)
+            rng.shuffle(ks)
+            return {k: d[k] for k in ks}
+        slates, coh = shuffled(slates), shuffled(coh)
+        ints = shuffled({b: shuffled(row) for b, row in ints.items()})
+        coh = {b: shuffled(row) for b, row in coh.items()}
+        order = list(blocs)
+        rng.shuffle(order)
+        props = {b: props[b] for b in order}
+        blocs = order
     return {"blocs": blocs, "slates": slates, "intervals": ints, "cohesion": coh, "props": props}
 
 
@@ -474,7 +488,8 @@ def model_call(case, run):
                     li += 1
                 # which ballots shuffled: replay the type sampling in Python to align (uses only the flips)
                 sh_iter = iter(shuffles)
-                coh = [[bid[b2], Fraction(case["cohesion"][b][b2])] for b2 in blocs]
+                # sample_cohesion_ballot_types walks the bloc's cohesion row in ITS dict order
+                coh = [[bid[b2], Fraction(v)] for b2, v in case["cohesion"][b].items()]
                 for j in range(n):
                     flips = flips_all[j * ncand:(j + 1) * ncand]
                     need = type_needs_shuffle(flips, [x[0] for x in coh], [x[1] for x in coh], dict((x[0], x[1]) for x in szs))
